@@ -395,7 +395,11 @@ impl FileHasher<'_> {
     ) -> Option<(FileLen, FileHash)> {
         match self.hash_transformed(chunk, progress) {
             Ok(hash) => Some(hash),
-            Err(e) if e.kind() == io::ErrorKind::NotFound => None,
+            // Be silent only if the file itself has disappeared. The transform program,
+            // its temporary input or its output may also be reported as not found.
+            Err(e) if e.kind() == io::ErrorKind::NotFound && !chunk.path.to_path_buf().exists() => {
+                None
+            }
             Err(e) => {
                 self.log.warn(format!(
                     "Failed to compute hash of file {}: {}",
